@@ -159,6 +159,9 @@ def run(ctx):
         "goroutine / TCP timing is sampled, not enumerated: the theorems cover every arrival schedule of triple batches "
         "(C10_pool_lockstep) but the connection set-up of gmw.Network (accept/dial order) is only exercised",
         "privacy is not claimed (tripleBatch sends b and a xor Delta in clear)",
+        "hang classification: a session is a suspect when no byte moved on any connection, no pool level changed and no "
+        "party finished a phase for 60 s (or it ran 10 min); it is reported as c10-timeout only after a re-run ALONE "
+        "(no other session in the harness) shows no progress for 120 s; nothing is launched after a confirmed hang",
         "the leader's listener exists before a peer dials it (a peer that finds no leader returns an error by design)",
         "wire store totalised: theorems carry SSA (single assignment, topological, indices < numWires), which the "
         "compiler output satisfies and the harness circuits are checked for by the reference evaluator",
